@@ -287,13 +287,27 @@ def run_config(pa, cfg):
         outpath = os.path.join(d, "out." + ("json" if cfg["out"] == "json" else "csv"))
         cli_res, spy, err = run_cli(pa, cfg, args, outpath)
         # the API is driven with the files in the order the CLI reports them (a folder is listed in OS order)
+        order_problem = None
         if cli_res is not None and sorted(cli_res) == sorted(str(p) for p in paths):
-            paths = [p for key in cli_res for p in paths if str(p) == key]
+            reported = [p for key in cli_res for p in paths if str(p) == key]
+            # expected order: arguments in the order given; inside a folder, whatever order the CLI listed
+            expected = []
+            for a in args:
+                if os.path.isdir(a):
+                    expected += [p for p in reported if os.path.dirname(p) == a]
+                else:
+                    expected.append(a)
+            if [str(p) for p in reported] != [str(p) for p in expected]:
+                order_problem = (f"input files processed in the order {[os.path.basename(p) for p in reported]}, given as "
+                                 f"{[os.path.basename(p) for p in expected]} (with one seed, each file's samples depend on its position)")
+            paths = reported
         try:
             api_res = run_api(pa, cfg, paths)
         except Exception as e:  # noqa
             return [f"HARNESS-SKIP API raised {type(e).__name__}: {e}"], None
         probs = judge(pa, cfg, cli_res, spy, err, api_res, paths)
+        if order_problem and not probs:
+            probs = [order_problem]
         first = api_res[str(paths[0])]
         return probs, first
     finally:
